@@ -64,7 +64,7 @@ Definition ex_change : chg :=
   CSet (PStr [101]%N) [CContents (PStr [109]%N) (PStr [120]%N) (PStr [])] (PFloat [49; 46; 53]%N).
 
 Lemma history_roundtrip_example :
-  load_history (Loaded (history_write_val 1 [CMove (PStr [97]%N) (PStr [98]%N) (PBool false); ex_change] [ex_change]))
+  load_history (Loaded (history_write_val 1 [CMove (PStr [97]%N) (PStr [98]%N) false; ex_change] [ex_change]))
   = HOk [ex_change] [ex_change].
 Proof. reflexivity. Qed.
 
@@ -73,3 +73,33 @@ Definition ex_files : pval :=
 
 Lemma files_ok_example : files_ok ex_files = true /\ load_files (Loaded ex_files) = OOk ex_files.
 Proof. split; reflexivity. Qed.
+
+(* two sessions: the first save dies after 4 bytes of the history, the next one completes *)
+Lemma sessions_example :
+  evolves (tbl_unpickle wit_tbl) no_files (([] ++ [wit_write]) ++ [wit_write]) (run (save_steps [wit_write]) wit_disk)
+  /\ read_data (tbl_unpickle wit_tbl) catches_repaired (run (save_steps [wit_write]) wit_disk) History = Loaded wit_val.
+Proof.
+  split; [|vm_compute; reflexivity].
+  eapply ev_save; [eapply ev_save; [apply ev_refl; reflexivity|exact wit_good|exact wit_crash]|exact wit_good|].
+  apply complete_is_crash_state.
+Qed.
+
+(* complete pickles of something else than a history (no crash produces them: C18_reader_total): the history
+   consumer is not total on them, the dict consumers take anything *)
+Lemma foreign_values_example :
+  load_history (Loaded (PInt 5)) = HRaised ExType
+  /\ load_history (Loaded (PDict [])) = HRaised ExKey
+  /\ load_history (Loaded (PStr [])) = HRaised ExIndex
+  /\ load_history (Loaded (PStr [97; 98]%N)) = HRaised ExAttribute
+  /\ load_history (Loaded (PDict [(PInt 0, PList []); (PBool true, PTuple [])])) = HOk [] []
+  /\ load_files (Loaded (PInt 5)) = OOk (PInt 5).
+Proof. repeat split; reflexivity. Qed.
+
+Definition ex_names : pval := PDict [(PStr [109]%N, PList [PStr [102]%N; PStr [120]%N])].
+Lemma names_ok_example : names_ok ex_names = true /\ load_names (Loaded ex_names) = OOk ex_names.
+Proof. split; reflexivity. Qed.
+
+Lemma trace_example :
+  trace_steps [TOpen (P History) true; TWrite (P History) [1; 2]%N; TClose (P History)]
+  = Some [OpenTrunc (P History); Append (P History) 1%N; Append (P History) 2%N; Close (P History)].
+Proof. reflexivity. Qed.
